@@ -116,6 +116,25 @@ table(pos)
 endtable;
 '''
 
+SEEDS["passif"] = H + '''
+table(feature)
+  fone { id = 2001; name.1033 = string("One"); default = 0;
+         settings { a { value = 0; name.1033 = string("a"); } b { value = 1; name.1033 = string("b"); } } }
+endtable;
+table(glyph)
+  cA = glyphid(3..6);
+  cB = glyphid(7..10);
+  cC = glyphid(11..14);
+endtable;
+table(sub)
+  if (fone == b)
+    pass(1) cA > cB; cB > cC / cA _; endpass;
+  else
+    pass(2) cA > cC; endpass;
+  endif;
+endtable;
+'''
+
 DICT = ["cA", "cB", "cC", "cD", "cAll", "cBase", "cMark", "cTake", "cLig", "ANY", "_", "#", "^", ">", "<", "/", ";", ":", ",",
         "(", ")", "{", "}", "[", "]", "?", "=", "+=", "-=", "==", "!=", "<=", ">=", "&&", "||", "!", "+", "-", "*", "/", "..", ".",
         "$", "@", "@1", "@2", "@9", "@0", "@-1", "@65", "cB$1", "cA$7", "cA:1", ":(1 2)", ":(1 2 3 4 5 6 7 8 9)",
